@@ -515,8 +515,9 @@ class MeshParametrized(Mesh):
             vtx for vtx in self.vertices if vtx.t == initial_time_mesh[-1]
         ]) == len(initial_space_mesh)
 
-        # Ensure that the initial space consists at least of three elements.
-        if self.glue_space and len(self.roots) < 3:
+        # Ensure that the initial space consists at least of three elements
+        # (in every time slab).
+        if self.glue_space and len(initial_space_mesh) - 1 < 3:
             for elem in self.roots:
                 self.refine_space(elem)
             leaves = list(self.leaf_elements)
